@@ -190,11 +190,16 @@ def run(task: Task, seed=0, tier="quick"):
     res = dict(task=task.name, obligations=[], functions={}, files={}, paths=0, spec_paths=0, error=None,
                assumptions=[], crosscheck=0, havoc=[], shared_writes=[], secs=0.0, unknown_feasibility=0)
     I = Interp(contracts=dict(task.contracts))
+    I.interfere = set(getattr(task, "interfere", ()))
     try:
         _run(task, I, res, seed, tier)
     except Unsupported as u:
         res["error"] = f"unsupported: {u}"
         res["trace"] = traceback.format_exc()[-1500:]
+        try:
+            _crosscheck(task, res, seed, tier)
+        except Exception:  # noqa: BLE001
+            pass
     except Exception as ex:  # noqa: BLE001 - checker fault, reported as such (exit 3), never as a violation
         res["error"] = f"checker fault: {type(ex).__name__}: {ex}"
         res["trace"] = traceback.format_exc()[-3000:]
@@ -223,6 +228,15 @@ def _run(task, I, res, seed, tier):
     I.deadline = t_start + TASK_BUDGET_S
     inp = task.setup(I)
     base = list(I.assumptions)
+    if I.interfere:
+        # phase A: undisturbed exploration, to learn what a call can write into the shared fields (the guarantee)
+        want = set(I.interfere)
+        I.interfere = set()
+        for p in I.explore(lambda: task.code(I, inp), max_paths=task.max_paths):
+            for w in p["writes"]:
+                if w.get("shared") and (w["target"], w.get("attr")) in want and isinstance(w.get("value"), (int, SInt)):
+                    I.guarantee.setdefault((w["target"], w["attr"]), []).append((w["pc"], lift_int(w["value"])))
+        I.interfere = want
     code_paths = list(I.explore(lambda: task.code(I, inp), max_paths=task.max_paths))
     res["paths"] = len(code_paths)
     obls = res["obligations"]
@@ -231,7 +245,8 @@ def _run(task, I, res, seed, tier):
     for p in code_paths:
         for w in p["writes"]:
             if w.get("shared"):
-                sw.add((w["target"], w.get("attr", w.get("key", "")), w["where"], w["line"]))
+                sw.add((w["target"], w.get("attr", w.get("key", "")), w["where"], w["line"],
+                        w.get("file", "?"), w.get("abs_line", 0)))
     res["shared_writes"] = sorted(sw)
 
     by_pc = {id(p["pc"]): p for p in code_paths}
@@ -359,16 +374,32 @@ def _run(task, I, res, seed, tier):
             solve_clause(f"{task.name}: path {i} ({_kind(o)}) agrees with the spec", p["pc"], goal)
     for nm, hyps, goal in task.extra_obligations(I, inp, code_paths):
         solve_clause(f"{task.name}: {nm}", hyps, goal)
-    # 4. native cross-check of code vs spec on sampled inputs (bounded; also guards the encoder)
+    _crosscheck(task, res, seed, tier)
+
+
+def _crosscheck(task, res, seed, tier):
+    """native cross-check of the real code against the sidecar spec on sampled inputs (bounded; also guards the
+    encoder).  Runs even when the symbolic part gave up, so that a change beyond the engine's reach can still be
+    caught with a replayable input."""
+    if res.get("crosscheck_done"):
+        return
+    res["crosscheck_done"] = True
+    obls = res["obligations"]
     rnd = random.Random(seed * 7919 + hash(task.name) % 1000)
     n = task.crosscheck_samples * (5 if tier == "thorough" else 1)
     k = 0
     for _ in range(n):
-        s = task.sample(rnd)
+        try:
+            s = task.sample(rnd)
+        except Exception:  # noqa: BLE001
+            break
         if s is None:
             break
         k += 1
-        ok, c, sp = task.native_agree(s)
+        try:
+            ok, c, sp = task.native_agree(s)
+        except Exception as ex:  # noqa: BLE001
+            ok, c, sp = False, f"ESCAPE {type(ex).__name__}: {ex}", "?"
         if not ok:
             obls.append(obligation(f"{task.name}: native cross-check (bounded)", "refuted", "cpython", 0.0,
                                    witness=s, detail=f"replayed natively: code -> {c!r}, spec -> {sp!r}", kind="bounded"))
